@@ -188,6 +188,32 @@ fn c07_all_invert(a: &[usize], ea: u8) {
     std::mem::forget((l, all, inv));
 }
 
+// LIST_INVERT with a cheap result check (size and identity of the first item only): the full
+// mask comparison above is the expensive part and runs out of memory on some mutants of inverse()
+fn c07_invert_size(a: &[usize]) {
+    let u = any_u();
+    let l = mk(&u, a, 0);
+    let ma = mask_from(a);
+    let exp = origin_mask_of_items(ma, 0) & !ma;
+    let inv = l.inverse();
+    assert!(inv.items.len() as i32 == popcount(exp), "C07: LIST_INVERT differs from origin items not in the list (wrong number of items)");
+    if let Some((k, v)) = inv.items.iter().next() {
+        let c = code(k);
+        let mut ok = false;
+        let mut i = 0;
+        while i < 4 {
+            if exp & (1 << i) != 0 && c == code_of_index(i) && *v == u.v[i] {
+                ok = true;
+            }
+            i += 1;
+        }
+        assert!(ok, "C07: LIST_INVERT returned an item that is in the list or not in its origins");
+    }
+    kani::cover!(u.v[0] == u.v[2], "must: equal values in two origins");
+    kani::cover!(u.v[0] == u.v[1], "must: equal values in one origin");
+    std::mem::forget((l, inv));
+}
+
 // LIST_RANGE kernel: list_with_sub_range(min, max) with int bounds
 fn c07_sub_range_int(a: &[usize]) {
     let u = any_u();
